@@ -56,8 +56,41 @@ class Cp(Generic[C]):
 @guppy.struct
 class Sz(Generic[n]):
     x: frozenarray[int, n]
+
+# structs declared in nested scopes, through the real decorator path; read back in their declaring frame
+SCOPED = {}
+
+
+def declared_in_function():
+    @guppy.struct
+    class FFlag:
+        b: bool
+
+    @guppy.struct
+    class FBox(Generic[L, n]):
+        x: L
+
+    SCOPED["FFlag"] = FFlag
+    SCOPED["FBox"] = FBox
+
+
+declared_in_function()
+
+
+class Shapes:
+    @guppy.struct
+    class CTag:
+        x: int
+
+    @guppy.struct
+    class CCircle(Generic[L]):
+        r: L
+
+    SCOPED["CTag"] = CTag
+    SCOPED["CCircle"] = CCircle
 '''
 STRUCT_NAMES = ["S0", "Lin", "Box", "Pair", "Vec", "Cp", "Sz"]
+SCOPES = {"fn": ["FFlag", "FBox"], "cls": ["CTag", "CCircle"]}
 TY, NAT = ("type", False, False), ("nat",)
 # name -> (params, copyable-if-args-are, droppable-if-args-are); validated against the real definitions
 ENV = {
@@ -66,6 +99,7 @@ ENV = {
     "Option": ([TY], True, True),
     "S0": ([], True, True), "Lin": ([], False, True), "Box": ([TY], True, True), "Pair": ([TY, TY], True, True),
     "Vec": ([TY, NAT], False, True), "Cp": ([("type", True, True)], True, True), "Sz": ([NAT], True, True),
+    "FFlag": ([], True, True), "FBox": ([TY, NAT], True, True), "CTag": ([], True, True), "CCircle": ([TY], True, True),
 }
 NUMS = ["nat", "int", "float"]
 
@@ -94,6 +128,33 @@ def droppable(t):
     return False
 
 
+_SCOPE = []      # names of the nested-scope structs the generator may use right now
+
+
+def gen_scoped(r, depth):
+    """a type that mentions at least one struct declared in a function / class body (one scope per type)"""
+    scope = r.choice(sorted(SCOPES))
+    _SCOPE[:] = SCOPES[scope]
+    try:
+        t = gen_ty(r, depth)
+        if not (_names(t) & set(SCOPES[scope])):
+            leaf = r.choice([["app", SCOPES[scope][0], []],
+                             ["app", SCOPES[scope][1], [["num", "int"], ["nat", 3]] if scope == "fn" else [["app", "bool", []]]]])
+            t = r.choice([leaf, ["tuple", [t, leaf]], ["app", "Option", [leaf]], ["app", "array", [leaf, ["nat", 2]]],
+                          ["app", "Pair", [leaf, t]], ["app", "Option", [["app", "array", [["tuple", [leaf, t]], ["nat", 2]]]]]])
+        return t
+    finally:
+        _SCOPE[:] = []
+
+
+def _names(t):
+    if t[0] == "tuple":
+        return set().union(*[_names(x) for x in t[1]]) if t[1] else set()
+    if t[0] == "app":
+        return {t[1]}.union(*[_names(x) for x in t[2]])
+    return set()
+
+
 def gen_ty(r, depth, mc=False, md=False, check_bounds=True):
     """random first-order type (JSON) respecting the Copy/Drop bounds when check_bounds"""
     for _ in range(20):
@@ -107,11 +168,13 @@ def _gen_ty(r, depth, cb):
     c = r.random()
     if depth <= 0 or c < 0.18:
         return r.choice([["num", r.choice(NUMS)], ["none"], ["app", "bool", []], ["app", "str", []],
-                         ["app", "S0", []], ["app", "Lin", []], ["tuple", []]])
+                         ["app", "S0", []], ["app", "Lin", []], ["tuple", []]]
+                        + [["app", x, []] for x in _SCOPE if not ENV[x][0]] * 2)
     if c < 0.5:
         n = r.choice([0, 2, 2, 2, 3, 3, 4])      # 1-tuples are outside the partial theorem (known finding)
         return ["tuple", [gen_ty(r, depth - 1, check_bounds=cb) for _ in range(n)]]
-    name = r.choice(["array", "frozenarray", "Option", "Option", "Box", "Box", "Pair", "Vec", "Cp", "Sz"])
+    name = r.choice(["array", "frozenarray", "Option", "Option", "Box", "Box", "Pair", "Vec", "Cp", "Sz"]
+                    + [x for x in _SCOPE if ENV[x][0]] * 3)
     args = []
     for p in ENV[name][0]:
         if p[0] == "nat":
@@ -306,7 +369,7 @@ def ser_py(e):
 
 def generate(ctx):
     import tr_printer
-    text, info = tr_printer.translate(ctx.int_src("tys/printing.py"), ctx.int_src("tys/ty.py"))
+    text, info = tr_printer.translate(ctx.int_src("tys/printing.py"), ctx.int_src("tys/ty.py"), ctx.pub_src("decorator.py"))
     ctx.gen("GenPrinter.v", text)
     return info
 
@@ -339,7 +402,10 @@ def run(ctx):
         cases += json.loads(f.read_text())
     n_corpus = len(cases)
     for i in range(n_rt):
-        cases.append(["rt", gen_ty(r, r.choice([1, 2, 3, 4, 5]), check_bounds=(i % 10 != 0))])
+        if i % 4 == 3:
+            cases.append(["rt", gen_scoped(r, r.choice([0, 1, 2, 3]))])
+        else:
+            cases.append(["rt", gen_ty(r, r.choice([1, 2, 3, 4, 5]), check_bounds=(i % 10 != 0))])
     rt_printed = []
     for i in range(n_tk):
         if i % 2 == 0:
@@ -350,7 +416,7 @@ def run(ctx):
         cases.append(["fun", gen_fun(r)])
     # first pass on the implementation: print the rt types, so that token-stream cases can be
     # mutations of real printed strings
-    payload = {"structs": STRUCT_SRC, "struct_names": STRUCT_NAMES, "cases": [c for c in cases if c[0] == "rt"]}
+    payload = {"structs": STRUCT_SRC, "struct_names": STRUCT_NAMES, "scoped_names": [n for v in SCOPES.values() for n in v], "cases": [c for c in cases if c[0] == "rt"]}
     first = json.loads(ctx.impl("impl_types.py", payload))
     rt_printed = [x["toks"] for x in first["results"] if "toks" in x]
     for c in cases:
@@ -402,6 +468,8 @@ def run(ctx):
                 hist[t[1]] += 1
             elif t[1] in STRUCT_NAMES:
                 hist["struct"] += 1
+            elif t[1] in ENV:
+                hist["scoped_struct"] = hist.get("scoped_struct", 0) + 1
             if len(t[2]) == 1 and t[2][0][0] == "tuple":
                 hist["sole_tuple_arg"] += 1
             for x in t[2]:
@@ -450,6 +518,13 @@ def run(ctx):
                 specfail(f"roundtrip:{x['str']}", "print_parse_roundtrip: str(ty) does not read back as ty",
                          {"type": c[1], "printed": x["str"], "read_back": x["back"], "error": x["err"],
                           "expected": "type_from_ast(ast.parse(str(ty)).body[0].value) == ty",
+                          "replay": REPLAY % ("rt", json.dumps(c[1]))})
+            scoped = bool(_names(c[1]) & {n for v in SCOPES.values() for n in v})
+            stats["rt_scoped"] = stats.get("rt_scoped", 0) + scoped
+            if x.get("bad_struct_names"):
+                specfail(f"structname:{x['str']}", "a printed struct name is not an identifier that resolves, in the struct's declaring scope, to that struct",
+                         {"type": c[1], "printed": x["str"], "bad_names": x["bad_struct_names"], "read_back": x["back"], "error": x["err"],
+                          "expected": "ty.defn.name is the identifier the class is bound to in the frame Guppy resolves the struct's annotations in",
                           "replay": REPLAY % ("rt", json.dumps(c[1]))})
             if not x["pytok_agrees"]:
                 disagree(f"lexer:{x['str']}", "check lexer vs Python tokenize", {"str": x["str"], "lex": x["toks"]})
